@@ -48,6 +48,7 @@ Definition body (f : fname) (args : list value) : outcome :=
   | FISERROR, [v] => Ret (VBool (p_ISERROR v))
   | FISERR, [v] => Ret (VBool (p_ISERR v))
   | FISNA, [v] => Ret (VBool (p_ISNA v))
+  | FERRORTYPE, [VList _] => PyExc                       (* errdict.get(<list>): unhashable, TypeError *)
   | FERRORTYPE, [v] => Ret (error_type v)
   | FSUM, _ => match first_error (flatten_args args) with
                | Some e => RaiseErr e
